@@ -3,6 +3,7 @@
 Walks __dict__/sequences/mappings/enums/bitarray/bytes without knowing attribute names,
 so a refactoring that renames internals changes hashes, not verdicts.
 """
+import datetime as _dt
 import enum
 import hashlib
 
@@ -35,6 +36,10 @@ def canon(o, skip=SKIP_ATTRS, rename=None, _memo=None, _depth=0):
         return ("b", v.hex() if isinstance(v, bytes) else repr(v))
     if isinstance(o, enum.Enum):
         return ("E", type(o).__name__, o.name)
+    if isinstance(o, (_dt.datetime, _dt.date, _dt.time)):
+        # by value, not by (possibly seam-substituted) class name
+        kind = "datetime" if isinstance(o, _dt.datetime) else ("date" if isinstance(o, _dt.date) else "time")
+        return ("dt", kind, o.isoformat())
     if bitarray and isinstance(o, bitarray):
         return ("ba", o.to01())
     if numpy is not None and isinstance(o, numpy.ndarray):
